@@ -18,6 +18,8 @@ pub struct BuildEngine;
 fn cfg_for(config: &str) -> GenCfg {
   // Suffix `-xl`: the same mix with larger bounds (tasks, resources, steps, script length).
   if let Some(base) = config.strip_suffix("-xl") { let mut c = cfg_for(base); c.xl = true; return c; }
+  // Suffix `-marathon`: the same mix over small programs with histories of 150..300 steps.
+  if let Some(base) = config.strip_suffix("-marathon") { let mut c = cfg_for(base); c.marathon = true; return c; }
   // Suffix `-zst`: the same mix; some reads use checkers with a zero-sized stamp type.
   if let Some(base) = config.strip_suffix("-zst") { let mut c = cfg_for(base); c.zst = true; c.exact_only_pct = 0; return c; }
   let mut c = GenCfg::default();
@@ -97,7 +99,7 @@ impl Engine for BuildEngine {
   fn generate(&self, rng: &mut Rng, config: &str, _prop: &str) -> Scenario {
     let cfg = cfg_for(config);
     let program = match cfg.class {
-      Class::X => { let want = match config.trim_end_matches("-xl").trim_end_matches("-zst") { c if c.starts_with("x-hidden") => *rng.pick(&[0u64, 0, 1, 1, 4]), c if c.starts_with("x-overlap") => 2, c if c.starts_with("x-cycle") => 3, _ => rng.below(5) }; if rng.chance(25) { gen_program_vx(rng, &cfg, want) } else { gen_program_x(rng, &cfg, want) } }
+      Class::X => { let want = match config.trim_end_matches("-xl").trim_end_matches("-zst").trim_end_matches("-marathon") { c if c.starts_with("x-hidden") => *rng.pick(&[0u64, 0, 1, 1, 4]), c if c.starts_with("x-overlap") => 2, c if c.starts_with("x-cycle") => 3, _ => rng.below(5) }; if rng.chance(if cfg.marathon { 70 } else { 25 }) { gen_program_vx(rng, &cfg, want) } else { gen_program_x(rng, &cfg, want) } }
       Class::M => gen_program_m(rng, &cfg),
       Class::V => gen_program_v(rng, &cfg),
       _ => gen_program_w(rng, &cfg),
